@@ -12,6 +12,12 @@ CHECKS = {
     "C01": dict(
         text="Coq theorems C01_layout / C01_roundtrip / C01_refuse over the model of SerialFrame whose constants (formats, SOF, length base, CRC parameters resolved through crcmod's table) are regenerated from the source on every run; all payload contents and lengths at once. Tied to the code by the translator and by a differential run model vs implementation vs an independent bit-serial reference encoder.",
         design="3/C01", technique="Coq proof (induction, 2^16 CRC state sweep lifted by lemma) + translator-regenerated constants + differential correspondence"),
+    "C02": dict(
+        text="Coq theorems: frame_decode d = Ok(fid,p) <-> accepts d fid p for every well-formed byte string (C02_decode_iff), totality of the error classification, soundness and completeness of the device-side dispatcher w.r.t. the same acceptance predicate, and the detection theorem C02_detect: every valid frame <= 4095 bytes xor every error pattern that leaves the length field intact and has weight 1, weight 2, odd weight or is a burst <= 16 bits is rejected (CRC algebra: linearity, injectivity of the zero-bit step, parity invariant, orbit of x^16 mod g, each finite sweep lifted by a lemma). Differential: header sweep with forged CRCs, random strings, corrupted frames, dispatcher with recording callbacks.",
+        design="3/C02", technique="Coq proof (CRC algebra over GF(2), iff-characterisation) + translator-regenerated constants + differential correspondence"),
+    "C17": dict(
+        text="Coq theorems: data_align p d = d ++ zeros(pad_count p |d|) for every p >= 0 and d, pad_count is the unique k < p making the length a multiple of p (0 for p = 0); for every frame frame_create can emit and every padding, recv_dispatch(padded) = recv_dispatch(unpadded); padding-only writes dispatch nothing. Differential: all paddings x lengths (exhaustive in thorough), every request kind x paddings through the real recv_handle.",
+        design="3/C17", technique="Coq proof (arithmetic + dispatcher characterisation) + translator-regenerated constants + differential correspondence"),
 }
 PENDING = {}
 
